@@ -119,138 +119,157 @@ def run(rep):
     rep.rule('R15.a', 'attributes used on next() results are defined by every class that can flow there, or guarded')
     rep.rule('R15.b', 'returns yield the next() value; body/status mutators are dominated by a test on the request')
     rep.rule('R15.c', 'exception handlers around next() re-raise')
-    n_funcs = 0
     for fi in sorted(funcs, key=lambda f: f.key):
-        n_funcs += 1
-        mod = fi.mod
-        nd = next_derived(fi)
-        loc = diffcon.Locals(fi.node, cfg_of(fi), keep=nd)
-        rconds = lambda n: expand_conds(loc.conds(conds(fi, n), mod))     # named temporaries in tests looked through
-        # --- R15.a
-        accesses = [n for n in walk_body(fi.node) if isinstance(n, ast.Attribute) and isinstance(n.value, ast.Name)
-                    and n.value.id in nd]
-        bad = 0
-        for a in accesses:
-            var, attr = a.value.id, a.attr
-            if attr in flow_names:
-                continue
-            cs = rconds(a)
-            definers = resp_attrs.get(attr, [])
-            guarded = False
-            for t, p in cs:
-                if p is not True:
-                    continue
-                if isinstance(t, ast.Call) and call_name(t) == 'hasattr' and len(t.args) == 2 and norm(t.args[0]) == var \
-                        and isinstance(t.args[1], ast.Constant):
-                    g = t.args[1].value
-                    if g == attr or any(c in resp_attrs.get(g, []) for c in definers):
-                        guarded = True
-                if isinstance_test(t, var):
-                    cname = norm(t.args[1]).rpartition('.')[2]
-                    if any(c.name == cname for c in definers) or cname == 'Response':
-                        guarded = True
-            if not guarded:
-                bad += 1
-                where = [c.name for c in definers] or ['no werkzeug response class']
-                rep.fail('R15.a', fkey(fi, '%s.%s' % (var, attr)),
-                         "attribute '%s' of the next() result is not defined by BaseResponse (defined by %s); an "
-                         "HTTPException (404/405/raised error) flowing here raises AttributeError => 500; no hasattr/"
-                         "isinstance guard dominates the access" % (attr, ', '.join(where)), mod, a)
-        # a getattr(..., None) default must not be dereferenced (AttributeError on the very objects the default is for)
-        for n in walk_body(fi.node):
-            if isinstance(n, ast.Attribute) and isinstance(n.value, ast.Call) and call_name(n.value) == 'getattr' and len(n.value.args) == 3 \
-                    and isinstance(n.value.args[2], ast.Constant) and n.value.args[2].value is None:
-                bad += 1
-                rep.fail('R15.a', fkey(fi, n), "the None default of %s is dereferenced (.%s): for a response/exception without that attribute this "
-                         "raises AttributeError inside the middleware and replaces the response by a 500" % (short(n.value), n.attr), mod, n)
-        if not bad:
-            rep.ok('R15.a', fkey(fi), '%d attribute accesses on next() results %s: all BaseResponse-defined or guarded'
-                   % (len(accesses), sorted(set(a.attr for a in accesses))), mod, fi.node)
-        # --- R15.b returns
-        cfg = cfg_of(fi)
-        rets = returns_of(fi)
-        badret = [r for r in rets if not (isinstance(r.value, ast.Name) and r.value.id in nd) and not is_next_call(r.value)]
-        falls = cfg.exit in cfg.reach([cfg.entry], avoid=set(cfg.nodes_of_all(rets)), normal_only=True)
-        rep.check('R15.b', fkey(fi, 'returns'), not badret and not falls,
-                  'all %d returns yield the next() value' % len(rets) if not badret and not falls else
-                  'returns something other than the value of next(): %s' %
-                  ('; '.join(short(r) for r in badret) or 'falls off the end (None)'), mod, (badret or [fi.node])[0])
-        # --- R15.b body / status mutators
-        muts = []
-        for n in walk_body(fi.node):
-            if isinstance(n, ast.Attribute) and isinstance(n.ctx, ast.Store) and isinstance(n.value, ast.Name) \
-                    and n.value.id in nd and n.attr in BODY_ATTRS:
-                muts.append(n)
-            if isinstance(n, ast.Call) and isinstance(n.func, ast.Attribute) and n.func.attr in BODY_CALLS \
-                    and isinstance(n.func.value, ast.Name) and n.func.value.id in nd:
-                muts.append(n)
-        mut_stmts = [stmt_of(mod, mu) for mu in muts]
-        mut_nodes = set(cfg.nodes_of_all(mut_stmts))
-        for mu, mst in zip(muts, mut_stmts):
-            # a dominating branch whose test reads the request (directly, through a named temporary or through a flag
-            # set under such tests) and whose *other* side lets the next() value through to a return untouched
-            req_tests = []
-            at = [n for n in cfg.nodes_of(mst) if cfg.reachable(n)]
-            for t, p in cfg.conds_at_stmt(mst, expand=False):
-                der = loc.conds(cfg._expand_named(expand_conds([(t, p)]), at[0]) if at else [(t, p)], mod)
-                if not any('request' in names_loaded(x) for x, _ in der):
-                    continue
-                other = cfg.branch_nodes(t, not p)
-                if cfg.exit in cfg.reach(other, avoid=mut_nodes, normal_only=True):
-                    req_tests.append((t, p))
-            ok = bool(req_tests)
-            rep.check('R15.b', fkey(fi, 'mutates ' + norm(mu.func if isinstance(mu, ast.Call) else mu)), ok,
-                      'body/status mutation happens only under a test on the request: %s' % '; '.join(cond_texts(req_tests)) if ok else
-                      'body/status of the next() result is modified without any dominating test on the request that lets other '
-                      'requests pass through untouched (every response would change)', mod, mu)
-        # --- R15.b request body untouched: parsing the form consumes wsgi.input, so the endpoint would no longer
-        #     see the raw body (table entry: PostDataMiddleware exists to read the form)
-        BODY_READERS = {'form', 'values', 'files', 'stream', 'data', 'json', 'get_data', 'get_json', 'input_stream'}
-        BODY_TABLE = {'clastic.middleware.form::PostDataMiddleware.request': 'extracts POST form fields by design'}
-        reads = [n for n in walk_body(fi.node) if isinstance(n, ast.Attribute) and n.attr in BODY_READERS and norm(n.value) == 'request']
-        if fi.key in BODY_TABLE:
-            rep.ok('R15.b', fkey(fi, 'request body'), 'table entry: ' + BODY_TABLE[fi.key], mod, fi.node)
-        else:
-            rep.check('R15.b', fkey(fi, 'request body'), not reads, 'does not read / parse the request body' if not reads else
-                      'reads %s: the request body is parsed (and wsgi.input consumed) by a middleware that should be a pass-through, so '
-                      'an endpoint reading the raw body gets nothing' % sorted(set('request.' + n.attr for n in reads)), mod,
-                      reads[0] if reads else fi.node)
-        # --- R15.c
-        for st in stmts_of(fi.node):
-            if not isinstance(st, ast.Try):
-                continue
-            body_calls = [c for b in st.body for c in ast.walk(b) if isinstance(c, ast.Call) and is_next_call(c)]
-            if not body_calls:
-                continue
-            for h in st.handlers:
-                ok = handler_reraises_always(fi, h)
-                how = 're-raises on every path'
-                if not ok:
-                    # documented opt-out: "if self.<flag>: raise" with the flag defaulting to True
-                    flags = [s for s in h.body if isinstance(s, ast.If) and norm(s.test).startswith('self.')
-                             and any(isinstance(x, ast.Raise) and x.exc is None for x in s.body)]
-                    if flags:
-                        flag = norm(flags[0].test)[5:]
-                        ci = fi.cls
-                        init = repo.find_method(ci, '__init__') if ci else None
-                        dflt = None
-                        if init is not None:
-                            a = init.node.args
-                            names = [x.arg for x in a.args]
-                            if flag in names:
-                                i = names.index(flag) - (len(names) - len(a.defaults))
-                                if i >= 0 and isinstance(a.defaults[i], ast.Constant):
-                                    dflt = a.defaults[i].value
-                        ok = dflt is True
-                        how = 're-raises unless self.%s was switched off (default True)' % flag
-                rep.check('R15.c', fkey(fi, 'except ' + norm(h.type)), ok,
-                          'handler around next() ' + how if ok else
-                          'handler around next() can swallow the exception (does not re-raise on every path)', mod, h)
-    rep.floor('R15.a', 9, '(middleware functions)')
-    rep.floor('R15.b', 9)
-    rep.floor('R15.c', 3)
+        _guarded(rep, _one_middleware, rep, repo, fi, flow_names, resp_attrs)
+    _guarded(rep, _gzip_bookkeeping, rep, repo, base)
+    for rule, n in (('R15.a', 9), ('R15.b', 9), ('R15.c', 3), ('R15.d', 8)):
+        rep.guard(rep.floor, rule, n)
 
-    # ---- R15.d gzip ----------------------------------------------------------
+
+def _guarded(rep, group, *args):
+    """Run one rule group; whatever goes wrong inside it is an analysis gap (ANALYSIS-ERROR at the end), the other groups
+    still run and their violations are still reported."""
+    def run_group():
+        try:
+            return group(*args)
+        except AnalysisError:
+            raise
+        except Exception as e:       # a rule tripping over an unexpected shape must not take the whole check down
+            raise AnalysisError('internal error %s: %s' % (type(e).__name__, e))
+    run_group.__name__ = '%s%s' % (group.__name__, ''.join(' ' + a.key for a in args if hasattr(a, 'key')))
+    return rep.guard(run_group)
+
+
+
+def _one_middleware(rep, repo, fi, flow_names, resp_attrs):
+    cfg = cfg_of(fi)
+    mod = fi.mod
+    nd = next_derived(fi)
+    loc = diffcon.Locals(fi.node, cfg_of(fi), keep=nd)
+    rconds = lambda n: expand_conds(loc.conds(conds(fi, n), mod))     # named temporaries in tests looked through
+    # --- R15.a
+    accesses = [n for n in walk_body(fi.node) if isinstance(n, ast.Attribute) and isinstance(n.value, ast.Name)
+                and n.value.id in nd]
+    bad = 0
+    for a in accesses:
+        var, attr = a.value.id, a.attr
+        if attr in flow_names:
+            continue
+        cs = rconds(a)
+        definers = resp_attrs.get(attr, [])
+        guarded = False
+        for t, p in cs:
+            if p is not True:
+                continue
+            if isinstance(t, ast.Call) and call_name(t) == 'hasattr' and len(t.args) == 2 and norm(t.args[0]) == var \
+                    and isinstance(t.args[1], ast.Constant):
+                g = t.args[1].value
+                if g == attr or any(c in resp_attrs.get(g, []) for c in definers):
+                    guarded = True
+            if isinstance_test(t, var):
+                cname = norm(t.args[1]).rpartition('.')[2]
+                if any(c.name == cname for c in definers) or cname == 'Response':
+                    guarded = True
+        if not guarded:
+            bad += 1
+            where = [c.name for c in definers] or ['no werkzeug response class']
+            rep.fail('R15.a', fkey(fi, '%s.%s' % (var, attr)),
+                     "attribute '%s' of the next() result is not defined by BaseResponse (defined by %s); an "
+                     "HTTPException (404/405/raised error) flowing here raises AttributeError => 500; no hasattr/"
+                     "isinstance guard dominates the access" % (attr, ', '.join(where)), mod, a)
+    # a getattr(..., None) default must not be dereferenced (AttributeError on the very objects the default is for)
+    for n in walk_body(fi.node):
+        if isinstance(n, ast.Attribute) and isinstance(n.value, ast.Call) and call_name(n.value) == 'getattr' and len(n.value.args) == 3 \
+                and isinstance(n.value.args[2], ast.Constant) and n.value.args[2].value is None:
+            bad += 1
+            rep.fail('R15.a', fkey(fi, n), "the None default of %s is dereferenced (.%s): for a response/exception without that attribute this "
+                     "raises AttributeError inside the middleware and replaces the response by a 500" % (short(n.value), n.attr), mod, n)
+    if not bad:
+        rep.ok('R15.a', fkey(fi), '%d attribute accesses on next() results %s: all BaseResponse-defined or guarded'
+               % (len(accesses), sorted(set(a.attr for a in accesses))), mod, fi.node)
+    # --- R15.b returns
+    cfg = cfg_of(fi)
+    rets = returns_of(fi)
+    badret = [r for r in rets if not (isinstance(r.value, ast.Name) and r.value.id in nd) and not is_next_call(r.value)]
+    falls = cfg.exit in cfg.reach([cfg.entry], avoid=set(cfg.nodes_of_all(rets)), normal_only=True)
+    rep.check('R15.b', fkey(fi, 'returns'), not badret and not falls,
+              'all %d returns yield the next() value' % len(rets) if not badret and not falls else
+              'returns something other than the value of next(): %s' %
+              ('; '.join(short(r) for r in badret) or 'falls off the end (None)'), mod, (badret or [fi.node])[0])
+    # --- R15.b body / status mutators
+    muts = []
+    for n in walk_body(fi.node):
+        if isinstance(n, ast.Attribute) and isinstance(n.ctx, ast.Store) and isinstance(n.value, ast.Name) \
+                and n.value.id in nd and n.attr in BODY_ATTRS:
+            muts.append(n)
+        if isinstance(n, ast.Call) and isinstance(n.func, ast.Attribute) and n.func.attr in BODY_CALLS \
+                and isinstance(n.func.value, ast.Name) and n.func.value.id in nd:
+            muts.append(n)
+    mut_stmts = [stmt_of(mod, mu) for mu in muts]
+    mut_nodes = set(cfg.nodes_of_all(mut_stmts))
+    for mu, mst in zip(muts, mut_stmts):
+        # a dominating branch whose test reads the request (directly, through a named temporary or through a flag
+        # set under such tests) and whose *other* side lets the next() value through to a return untouched
+        req_tests = []
+        at = [n for n in cfg.nodes_of(mst) if cfg.reachable(n)]
+        for t, p in cfg.conds_at_stmt(mst, expand=False):
+            der = loc.conds(cfg._expand_named(expand_conds([(t, p)]), at[0]) if at else [(t, p)], mod)
+            if not any('request' in names_loaded(x) for x, _ in der):
+                continue
+            other = cfg.branch_nodes(t, not p)
+            if cfg.exit in cfg.reach(other, avoid=mut_nodes, normal_only=True):
+                req_tests.append((t, p))
+        ok = bool(req_tests)
+        rep.check('R15.b', fkey(fi, 'mutates ' + norm(mu.func if isinstance(mu, ast.Call) else mu)), ok,
+                  'body/status mutation happens only under a test on the request: %s' % '; '.join(cond_texts(req_tests)) if ok else
+                  'body/status of the next() result is modified without any dominating test on the request that lets other '
+                  'requests pass through untouched (every response would change)', mod, mu)
+    # --- R15.b request body untouched: parsing the form consumes wsgi.input, so the endpoint would no longer
+    #     see the raw body (table entry: PostDataMiddleware exists to read the form)
+    BODY_READERS = {'form', 'values', 'files', 'stream', 'data', 'json', 'get_data', 'get_json', 'input_stream'}
+    BODY_TABLE = {'clastic.middleware.form::PostDataMiddleware.request': 'extracts POST form fields by design'}
+    reads = [n for n in walk_body(fi.node) if isinstance(n, ast.Attribute) and n.attr in BODY_READERS and norm(n.value) == 'request']
+    if fi.key in BODY_TABLE:
+        rep.ok('R15.b', fkey(fi, 'request body'), 'table entry: ' + BODY_TABLE[fi.key], mod, fi.node)
+    else:
+        rep.check('R15.b', fkey(fi, 'request body'), not reads, 'does not read / parse the request body' if not reads else
+                  'reads %s: the request body is parsed (and wsgi.input consumed) by a middleware that should be a pass-through, so '
+                  'an endpoint reading the raw body gets nothing' % sorted(set('request.' + n.attr for n in reads)), mod,
+                  reads[0] if reads else fi.node)
+    # --- R15.c
+    for st in stmts_of(fi.node):
+        if not isinstance(st, ast.Try):
+            continue
+        body_calls = [c for b in st.body for c in ast.walk(b) if isinstance(c, ast.Call) and is_next_call(c)]
+        if not body_calls:
+            continue
+        for h in st.handlers:
+            ok = handler_reraises_always(fi, h)
+            how = 're-raises on every path'
+            if not ok:
+                # documented opt-out: "if self.<flag>: raise" with the flag defaulting to True
+                flags = [s for s in h.body if isinstance(s, ast.If) and norm(s.test).startswith('self.')
+                         and any(isinstance(x, ast.Raise) and x.exc is None for x in s.body)]
+                if flags:
+                    flag = norm(flags[0].test)[5:]
+                    ci = fi.cls
+                    init = repo.find_method(ci, '__init__') if ci else None
+                    dflt = None
+                    if init is not None:
+                        a = init.node.args
+                        names = [x.arg for x in a.args]
+                        if flag in names:
+                            i = names.index(flag) - (len(names) - len(a.defaults))
+                            if i >= 0 and isinstance(a.defaults[i], ast.Constant):
+                                dflt = a.defaults[i].value
+                    ok = dflt is True
+                    how = 're-raises unless self.%s was switched off (default True)' % flag
+            rep.check('R15.c', fkey(fi, 'except ' + norm(h.type)), ok,
+                      'handler around next() ' + how if ok else
+                      'handler around next() can swallow the exception (does not re-raise on every path)', mod, h)
+
+
+def _gzip_bookkeeping(rep, repo, base):
     rep.rule('R15.d', 'gzip replaces body, Content-Length and Content-Encoding together; Vary before the Accept-Encoding test')
     gz = repo.mod('clastic.middleware.compress').func('GzipMiddleware.request')
     cfg = cfg_of(gz)
@@ -261,12 +280,26 @@ def run(rep):
         if isinstance(s, ast.Assign) and len(s.targets) == 1 and isinstance(s.targets[0], ast.Attribute) \
                 and isinstance(s.targets[0].value, ast.Name) and s.targets[0].value.id in nd:
             stores.setdefault(s.targets[0].attr, []).append(s)
-    if 'response' not in stores:
+    # where the body is replaced: ``resp.response = [value]``, or through the public API ``resp.set_data(value)`` /
+    # ``resp.data = value`` (BaseResponse.set_data stores [value] and -- checked below in the pinned source -- the
+    # Content-Length of it)
+    setters = [s for s in stmts_of(gz.node) if isinstance(s, ast.Expr) and isinstance(s.value, ast.Call) and isinstance(s.value.func, ast.Attribute)
+               and s.value.func.attr == 'set_data' and isinstance(s.value.func.value, ast.Name) and s.value.func.value.id in nd
+               and len(s.value.args) == 1 and not s.value.keywords]
+    via_api = False
+    if 'response' in stores:
+        body_st = stores['response'][0]
+        bv = body_st.value
+        comp_e = bv.elts[0] if isinstance(bv, (ast.List, ast.Tuple)) and len(bv.elts) == 1 and not isinstance(bv.elts[0], ast.Starred) else None
+    elif 'data' in stores or setters:
+        body_st = (stores.get('data') or setters)[0]
+        comp_e = body_st.value if isinstance(body_st, ast.Assign) else body_st.value.args[0]
+        sd = repo.find_method(base, 'set_data')
+        via_api = sd is not None and any(
+            isinstance(x, ast.Assign) and any(isinstance(t, ast.Subscript) and isinstance(t.slice, ast.Constant) and t.slice.value == 'Content-Length'
+                                              for t in x.targets) and 'len(' in norm(x.value) for x in ast.walk(sd.node))
+    else:
         raise AnalysisError('GzipMiddleware.request no longer replaces resp.response')
-    body_st = stores['response'][0]
-    # the value that becomes the body: the single element of the stored iterable, named temporaries looked through
-    bv = body_st.value
-    comp_e = bv.elts[0] if isinstance(bv, (ast.List, ast.Tuple)) and len(bv.elts) == 1 and not isinstance(bv.elts[0], ast.Starred) else None
     comp_r = L.resolve(comp_e, body_st) if comp_e is not None else None
     comp = norm(comp_r) if comp_r is not None else None
     for attr, want in (('content_length', None), ('content_encoding', 'gzip')):
@@ -274,10 +307,21 @@ def run(rep):
         nodes = cfg.nodes_of_all(sts)
         ok = bool(sts) and (cfg.must_pass(nodes, cfg.nodes_of(body_st), [cfg.exit]) or
                             cfg.must_pass(nodes, cfg.entry, cfg.nodes_of(body_st)))
-        if ok and attr == 'content_length':
+        if attr == 'content_length' and not sts and via_api:
+            ok, detail = True, 'Content-Length is set by BaseResponse.set_data to the length of the value stored as body'
+        elif ok and attr == 'content_length':
             for st_ in sts:
-                v = L.resolve(st_.value, st_)
-                ok = ok and isinstance(v, ast.Call) and call_name(v) == 'len' and len(v.args) == 1 and comp is not None and norm(v.args[0]) == comp
+                # follow the named temporaries of the stored value to the ``len(X)`` that computes it; X must denote the value stored as body
+                cur_e, cur_s = st_.value, st_
+                for _ in range(6):
+                    if not isinstance(cur_e, ast.Name):
+                        break
+                    b = L.binding(cur_e.id, cur_s)
+                    if b is None:
+                        break
+                    cur_e, cur_s = b
+                ok = ok and isinstance(cur_e, ast.Call) and call_name(cur_e) == 'len' and len(cur_e.args) == 1 and not cur_e.keywords \
+                    and comp_e is not None and L.same(cur_e.args[0], cur_s, comp_e, body_st)
             detail = 'Content-Length is len(%s), the value stored as body' % short(comp_e)
         elif ok:
             for st_ in sts:
